@@ -45,6 +45,7 @@ def families_e3(prop, tier, seed):
     nrand = 400 if tier == 'quick' else 4000
     fams.append(('random(seed=%d)' % seed, gram.random_family(seed, nrand)))
     fams.append(('descriptions', description_family(tier)))
+    fams.append(('mirrored within-word expressions', mirrored_subword_family()))
     from . import regress
     fams.append(('regression shapes', [regress.HOPCROFT_SPLITTER]))
     nloop = 1000 if tier == 'quick' else 10000
@@ -55,6 +56,26 @@ def families_e3(prop, tier, seed):
         fams.append(('optional-wrapped exhaustive', [gram.mk('cmd', gram.Opt(t)) for t in trees] +
                      [gram.mk('cmd', gram.Many(gram.Opt(t))) for t in trees]))
     return fams
+
+
+def mirrored_subword_family():
+    """two within-word expressions made of the same pieces in a different order, so that their automata have the same
+    shape and the same set of inputs: whatever the compiler uses to recognise `the same within-word automaton` must keep them apart"""
+    L, S, A, Sub, Opt, Ref = gram.Lit, gram.Seq, gram.Alt, gram.Sub, gram.Opt, gram.Ref
+    pairs = []
+    for (x, y, z) in (('foo', 'bar', 'baz'), ('-', '--', '=')):
+        pairs.append((Sub(L(x), Opt(L(y))), Sub(L(y), Opt(L(x)))))
+        pairs.append((Sub(L(x), A(L(y), L(z))), Sub(L(y), A(L(x), L(z)))))
+        pairs.append((Sub(L(x), Opt(L(y)), Opt(L(z))), Sub(L(z), Opt(L(y)), Opt(L(x)))))
+    out = []
+    for (w1, w2) in pairs:
+        out.append(gram.mk('cmd', A(S(w1, L('one')), S(w2, L('two')))))
+        out.append(gram.mk('cmd', A(w1, w2)))
+        out.append(gram.mk('cmd', S(w1, w2, L('end'))))
+    defs = [('DAY', None, A(L('1'), L('2'))), ('MON', None, A(L('jan'), L('feb')))]
+    out.append(gram.mk('dt', A(Sub(Ref('DAY'), L('/'), Ref('MON')), Sub(Ref('MON'), L('/'), Ref('DAY'))), defs))
+    out.append(gram.mk('dt', S(A(Sub(Ref('DAY'), L('/'), Ref('MON')), Sub(Ref('MON'), L('/'), Ref('DAY'))), L('x')), defs))
+    return out
 
 
 def description_family(tier):
@@ -770,7 +791,7 @@ def shared_definition_shapes():
 
 PROBES_C17 = {'c1': 'bbb\nccc\n', 'c2': 'dd\n', 'c5': 'foo bar\tdescr one\nbaz\tdescr\n', 'c6': 'x y\n', 'c7': 'k1\tonly descr\n',
               # backslashes, glob characters, a tab right after a backslash, trailing blanks before the tab
-              'c8': 'a\\b\tdescr\n*x\nq\\\tr\nw \tv\n',
+              'c8': 'a\\b\tdescr\n*x\nq\\\tr\nw \tv\nm\tfirst\tsecond\n',
               # candidates that look like options of a shell built-in
               'c9': '-n\n-e\tdescr\n-x\n'}
 
@@ -909,12 +930,37 @@ def check_C07(tier, seed):
     # bash half by execution
     rep = run_e2('C07', tier, seed, family_c07(tier, seed), K=1, configs=[e2.DEFAULT_WB],
                  extra={'concrete_vocab_cases': True, 'extra_alphabet': 'z='})
+    # script level, all four shells: the data statements emitted for the special-character vocabulary (as literals and as
+    # descriptions), read back with each shell's quoting rules (cgv/decoders.py), describe the grammar -- the machinery of C04
+    from . import e4
+    sl_programs = list(family_c07(tier, seed)[0][1])
+    descrs = SPECIAL_LITERALS + ["it's", 'say "hi"', 'tab\there', '100%', '$(rm -rf x)', '`id`', '${HOME}', '!!', 'a\\"b', '@{x}', "$'x'"]
+    for i in range(0, len(descrs), 3):
+        sl_programs.append(gram.mk('cmd', gram.Seq(gram.Alt(*[gram.Lit('l%d' % k, d) for k, d in enumerate(descrs[i:i + 3])]), gram.Lit('end'))))
+    sl = pool_map(e4.analyse, [(g, shells) for g in sl_programs])
+    sl_rows = {}
+    sl_viol = []
+    for r in sl:
+        for row in r['rows']:
+            sl_rows[row['status']] = sl_rows.get(row['status'], 0) + 1
+        for (_, key, what, payload) in r['violations']:
+            sl_viol.append(('script-data:%s' % key, what, payload))
+        for inc in r['inconclusive']:
+            if 'is not inert' in inc or 'unterminated' in inc:
+                # the reader of that shell sees a live expansion / an unterminated string in a data statement
+                sl_viol.append(('script-constant-not-inert', inc, {'grammar': r['text']}))
+            else:
+                e1_inconclusive.append('script level: %s' % inc)
     other = set(e2.KNOWN_DEVS)
     kept = [(k, w, p) for (k, w, p) in rep.violations if not set(k.split('+')) <= other]
     rep.coverage['differences_attributed_to_other_properties_known_deviations'] = len(rep.violations) - len(kept)
     rep.violations = kept
     for (k, w, p) in e1_viol:
         rep.violation(k, w, p)
+    for (k, w, p) in sl_viol:
+        rep.violation(k, w, p)
+    rep.coverage['script_level'] = {'programs': len(sl_programs), 'shells': list(shells), 'rows_by_status': sl_rows,
+                                    'what': 'literal and description constants of the emitted scripts decoded with the shell\'s quoting rules and compared with the grammar (automaton equivalence incl. literal text and description)'}
     rep.inconclusive += e1_inconclusive
     rep.coverage['e1'] = {
         'functions_encoded': ['%s::make_string_constant' % sh for sh in shells],
